@@ -278,7 +278,8 @@ impl<'a, 'pat, P: Scan<'a>> Exec<'pat, P> {
 					}
 				},
 				pat::Atom::Aligned(align) => {
-					if !self.cursor.aligned_to(1 << align as u32) {
+					// Nonsensical alignments are ignored, avoids overflowing the shift
+					if align < 32 && !self.cursor.aligned_to(1 << align as u32) {
 						return false;
 					}
 				},
